@@ -47,7 +47,7 @@ def describe(ev):
 
 def report(ctx, rej, trs, meta, only=None, limit=30):
     """one violation per (scenario family, rejected event kind); returns {class: count}"""
-    classes = {}
+    classes, tried = {}, {}
     for t, hw in sorted(rej.items()):
         ev = [e for e in trs[t] if e["_line"] == hw]
         ev = ev[0] if ev else None
@@ -56,11 +56,16 @@ def report(ctx, rej, trs, meta, only=None, limit=30):
         classes[key] = classes.get(key, 0) + 1
         if only is not None and (ev or {}).get("ev") not in only:
             continue
-        if classes[key] > 1 or len(ctx.violations) >= limit:
+        if tried.get(key, 0) < 0 or tried.get(key, 0) >= 2 or len(ctx.violations) >= limit:
             continue
         sc = dict(meta[t]["scenario"])
         if sc.get("sched"):
             sc["choices"] = meta[t].get("choices") or []
+        # a `stuck` state of a scheduled scenario is a verdict only if the same schedule gets stuck again
+        if not ic.confirm_stall(ctx, sc, ev):
+            tried[key] = tried.get(key, 0) + 1
+            continue
+        tried[key] = -1
         ctx.violation("%s [scenario %s, %s carrier, block size %s]" % (describe(ev), sc["name"], sc["carrier"], sc["bs"] or "default"),
                       {"family": "ibb", "scenario": sc, "choices": meta[t].get("choices"), "rejected_line": hw, "rejected_event": ev,
                        "trace": [{k: v for k, v in e.items() if k != "_line"} for e in trs[t]][-120:]})
@@ -171,7 +176,7 @@ def run(ctx):
         "listener_deviations_detected": mc.get("listen_deviations_detected", 0),
         "listener_schedules": lsumm["evaluations"] if lsumm else 0, "listener_traces_validated": lsumm["traces"] if lsumm else 0,
         "listener_trace_events": lsumm["events"] if lsumm else 0, "listener_rejected": len(lrej), "listener_selftest_mutants_rejected": nlself,
-        "listener_rule": "Listener.Accept / Expect / Close against real open requests under the scheduler: take-over by a second and third Expect for one session, cancellation of an Expect before / while / after its session is opened, cancellation of the call that took over, two expectations for two sessions opened in the other order, an expectation for a session that is never opened, a listener with nobody accepting, Expect vs Accept precedence, two opens for one session, two Accept calls, Close with a pending Accept / a pending session / a pending Expect, no listener; when everything is blocked the specification judges the state and the environment escalates: callers go away, a late Accept, listener Close",
+        "listener_rule": "Listener.Accept / Expect / Close against real open requests under the scheduler: take-over by a second and third Expect for one session, cancellation of an Expect before / while / after its session is opened, cancellation of the call that took over, two expectations for two sessions opened in the other order, an expectation for a session that is never opened, a listener with nobody accepting, Expect vs Accept precedence, two opens for one session, two Accept calls, Close with a pending Accept / a pending session / a pending Expect, no listener, Close twice (in sequence and from two goroutines), Accept and Expect on a closed listener, Expect for a session id that is open already (and that id opened again), Handler.Listen for a session that has a listener and for a second session while an open request waits for an acceptor, two served sessions sharing one Handler (same session id on both, expectations on both, closing one listener, an unaccepted session on each serve loop); when everything is blocked the specification judges the state and the environment escalates: callers go away, a late Accept, listener Close",
         "exhaustive": False, "samples": samples,
         "rule": "sequential scenarios = block size in {1,2,3,4,5,767,768,769,default} x payload lengths around block, base64-group and 768-byte encoder-chunk boundaries x partitions into Write calls (optional Flush, reads in between) x iq|message carrier, both directions at once with either end closing first, bad packets (unknown sid, closed sid at both ends, sequence too low / too high / far, undecodable, partly decodable, truncated, oversize) before / between / after data at either endpoint and with either carrier, refused and accepted open, full receive buffer, 65600 packets of block size 1 across the sequence wrap; schedules = depth-first enumeration at gate granularity (pre-emption bounded, capped per scenario) of reader vs serve loop vs writer, drain-then-EOF, simultaneous close, reader-side close during writes, Read against local Close, open with immediate data, refused open, empty packet; every distinct trace is validated",
     }, assumptions=["gate granularity of the scheduler (verifYield hooks read.wait, payload.signal, open.reply, close.claim; transport reads/writes; Go blocking primitives)",
